@@ -83,7 +83,7 @@ int main(int argc, char **argv) {
     if (do_families) {
         for (int c : cfgs) {
             auto &e = reg[c];
-            int fam = e.tier / 10;   // bit 0: seam family, bit 1: blocks family
+            int fam = e.tier / 10;   // bit 0: seam family, bit 1: blocks family, bit 2: density family
             bool wide = e.key_class >= 4;
             if ((fam & 1) && wide) {
                 std::vector<long> ps = thorough ? std::vector<long>{2, 3, 4, 5, 7, 16, 19, 20} : std::vector<long>{2, 20};
@@ -96,6 +96,11 @@ int main(int argc, char **argv) {
                             for (long w = 0; w < 4096; w += 64) { Task t; t.cfg = c; t.kind = 1; t.n = 32768 + d; t.p = p; t.seam = s; t.word_lo = w; t.word_hi = w + 64; tasks.push_back(t); }
                     }
             }
+            if ((fam & 4) && wide) {
+                // density family: all 4-digit (quick) / 5-digit (thorough) words of gap multipliers, 300 clusters per digit
+                long width = thorough ? 5 : 4, nwords = 1; for (long i = 0; i < width; ++i) nwords *= 4;
+                for (long w = 0; w < nwords; w += 8) { Task t; t.cfg = c; t.kind = 3; t.word_lo = w; t.word_hi = std::min(nwords, w + 8); t.rep = 300; t.n = width; tasks.push_back(t); }
+            }
             if (fam & 2) {
                 // one block repeated; two blocks; (thorough) three blocks from a reduced alphabet
                 for (long rep : (thorough ? std::vector<long>{1, 50, 400} : std::vector<long>{1, 50}))
@@ -104,8 +109,8 @@ int main(int argc, char **argv) {
                     for (long b = 0; b < ks::NUM_BLOCK_IDS; b += 3) { Task t; t.cfg = c; t.kind = 2; t.nblocks = 2; t.rep = rep; t.b0_lo = b; t.b0_hi = b + 3; tasks.push_back(t); }
             }
         }
-        fam_bounds = thorough ? "; seam family n=32768+{0,1,7}, chunks {2,3,4,5,7,16,19,20}, all 4096 window words at every seam (and at the first/last seam alone); blocks family: 1 block x rep {1,50,400}, 2 blocks x rep {1,20}"
-                              : "; seam family n=32768, chunks {2,20}, all 4096 window words at every seam; blocks family: 1 block x rep {1,50}, 2 blocks x rep 1";
+        fam_bounds = thorough ? "; seam family n=32768+{0,1,7}, chunks {2,3,4,5,7,16,19,20}, all 4096 window words at every seam (and at the first/last seam alone); blocks family: 1 block x rep {1,50,400}, 2 blocks x rep {1,20}; density family: all 1024 five-digit words x 300 clusters"
+                              : "; seam family n=32768, chunks {2,20}, all 4096 window words at every seam; blocks family: 1 block x rep {1,50}, 2 blocks x rep 1; density family: all 256 four-digit words of gap multipliers x 300 clusters (several segments per upper level)";
     }
 
     run.run_tasks(tasks.size(), [&](uint64_t ti) {
@@ -117,6 +122,12 @@ int main(int argc, char **argv) {
             for (long w = t.word_lo; w < t.word_hi && !run.deadline_passed(); ++w) {
                 ks::FamilySpec s; s.kind = "seam"; s.n = t.n; s.chunks = t.p; s.seam = t.seam; s.word = w;
                 if (w == t.word_lo + 17) run.sample(std::string("cfg=") + e.name + " family=" + s.str());
+                e.family(run, cn, prop, s);
+            }
+        } else if (t.kind == 3) {
+            for (long w = t.word_lo; w < t.word_hi && !run.deadline_passed(); ++w) {
+                ks::FamilySpec s; s.kind = "density"; s.chunks = 1; s.rep = t.rep; s.width = t.n; s.word = w;
+                if (w == t.word_lo + 3 && w % 64 == 3) run.sample(std::string("cfg=") + e.name + " family=" + s.str());
                 e.family(run, cn, prop, s);
             }
         } else {
